@@ -7,7 +7,7 @@ From GL Require Import Base.Order Base.OrderProofs Codec.IKey Codec.IKeyProofs L
   Lsm.CompactProofs Lsm.History Lsm.HistoryProofs Lsm.ReorgProofs Lsm.WfProofs Lsm.OutputProofs Lsm.Pick Lsm.PickBase
   Lsm.OverlapProofs Lsm.ExpandProofs Lsm.WfLsm Lsm.FinishProofs Lsm.InsertProofs Lsm.StepProofs Lsm.ModelStep
   Lsm.FlushProofs Lsm.C06Steps Lsm.RangeCompact Lsm.RangeStep Lsm.RangeProofs Lsm.AutoProofs.
-From Coq Require Import Arith Lia.
+From Coq Require Import Arith ZArith Lia.
 
 Local Open Scope nat_scope.
 
@@ -347,3 +347,79 @@ Section Post.
     rewrite Et in Et2. injection Et2 as <-. rewrite Ep. split; [apply get_set_ptr|]. intros l Hl. apply get_set_ptr_other. exact Hl.
   Qed.
 End Post.
+
+(* ---- the refutation of unconditional quiescence, for ALL fuel ----
+   Flat level limits: every level may hold [lim] bytes; a size function under which no live table is lighter than
+   that.  From a well-formed version with an empty level 0, no cSeek and a readable key, the background loop never
+   stops: reads are preserved by every step, so some table always exists; level 0 stays empty (nothing moves up), so
+   that table lives in a level >= 1, whose score is >= 1. *)
+Section NeverIdle.
+  Variable c : comparer.
+  Hypothesis ok : comparer_ok c.
+  Variable p : kparams.
+  Hypothesis pok : kparams_ok p.
+  Variable sz : table -> N.
+  Variable o : copts.
+  Variable bld : nat -> list (list table) -> compaction -> list table.
+  Variable ms : nat -> N.
+  Hypothesis B_ok : bld_ok c p sz o bld ms.
+  Hypothesis ms_lt : forall j, (ms j < keyMaxSeq p)%N.
+
+  Variable lim : N.
+  Hypothesis lim_pos : (0 < lim)%N.
+  Hypothesis flat : forall l, o_tot_limit o l = Z.of_N lim.
+  Hypothesis heavy : forall t, t_entries t <> [] -> (lim <= sz t)%N.
+
+  Variable k0 : bytes.
+  Variable s0 : N.
+  Hypothesis s0_safe : safe_seq ms s0.
+  Variable val : bytes.
+
+  Definition restless (st : cpstate) : Prop :=
+    wf_lsm c p (cp_v st) /\ cp_seek st = None /\ lv (cp_v st) 0 = [] /\ answer c p (cp_v st) k0 s0 = Some val.
+
+  Lemma restless_needs st : restless st -> need_compaction sz o st = true.
+  Proof.
+    intros [W [_ [L0 A]]]. unfold need_compaction. apply Bool.orb_true_iff. left.
+    destruct (compute_compaction_spec sz o (cp_v st)) as [_ D]. cbv zeta in D.
+    unfold answer in A. destruct (LE (concat (cp_v st))) as [|x r] eqn:El; [discriminate|].
+    assert (Hx : In x (LE (concat (cp_v st)))) by (rewrite El; left; reflexivity).
+    apply in_LE_concat in Hx as [i Hi]. apply LE_in in Hi as [t [Ht Hxt]].
+    assert (Hi0 : i <> 0) by (intros ->; rewrite L0 in Ht; destruct Ht).
+    apply (D i). unfold RangeCompact.level_score. replace (Nat.eqb i 0) with false by (symmetry; apply Nat.eqb_neq; exact Hi0).
+    rewrite flat. apply sc_ge1_big; [lia|].
+    assert (Hs : (lim <= total_size sz (lv (cp_v st) i))%N).
+    { destruct (wl_tbl c p _ W i t Ht) as [_ Hne]. pose proof (heavy t Hne) as Hh.
+      clear -Ht Hh. induction (lv (cp_v st) i) as [|u l IH]; [destruct Ht|]. rewrite total_size_cons.
+      destruct Ht as [->|Ht]; [lia|specialize (IH Ht); lia]. }
+    lia.
+  Qed.
+
+  Lemma restless_step st : restless st -> exists st', auto_step c sz o bld st = POk st' /\ restless st'.
+  Proof.
+    intros R. pose proof (restless_needs st R) as Hn. destruct R as [W [Sn [L0 A]]].
+    assert (Sk : seek_in st) by (intros l t E; rewrite Sn in E; discriminate).
+    assert (Sk' : seek_ok st 0) by (intros l t E; rewrite Sn in E; discriminate).
+    unfold auto_step, pick_compaction.
+    destruct (pick_seed_spec c sz o st 0 Sk' Hn) as [lvl [seed [ty [E [Sok _]]]]].
+    pose proof Sok as [S1 [S2 S3]].
+    destruct (model_pick c ok p sz (cp_v st) W lvl (o_exp_limit o lvl) seed S1 S2 S3) as [cm [En _]].
+    destruct (table_compaction_spec c ok p pok sz o bld ms B_ok st lvl seed cm false W Sok En)
+      as [st' [Et [[Wn [a [_ [_ [_ Hoth]]]]] [_ [Es _]]]]].
+    assert (Est : auto_step c sz o bld st = POk st').
+    { unfold auto_step, pick_compaction. rewrite E. cbn [pbind]. rewrite En. cbn [pbind]. exact Et. }
+    exists st'. split; [exact Est|].
+    destruct (auto_step_reads c ok p pok sz o bld ms B_ok ms_lt st st' W Sk Hn Est) as [_ [Rd _]].
+    split; [exact Wn|]. split; [exact Es|]. split.
+    - assert (Hl : lvl <> 0).
+      { intros ->. destruct seed as [|u r]; [congruence|]. specialize (S2 u (or_introl eq_refl)). rewrite L0 in S2. destruct S2. }
+      rewrite (Hoth 0) by lia. exact L0.
+    - rewrite (Rd k0 s0 s0_safe). exact A.
+  Qed.
+
+  Theorem flat_limits_never_idle : forall fuel st, restless st -> auto_loop c sz o bld fuel st = POutOfFuel.
+  Proof.
+    induction fuel as [|fuel IH]; intros st R; cbn [auto_loop]; rewrite (restless_needs st R); [reflexivity|].
+    destruct (restless_step st R) as [st' [E R']]. rewrite E. cbn [pbind]. apply (IH st' R').
+  Qed.
+End NeverIdle.
